@@ -123,11 +123,12 @@ class MATCHConv2d(nn.Conv2d, MATCHModule):
         if maybe_pad_dil:
             pad_dim = 0 if self.dilation[0] != 1 else 1
             with torch.no_grad():
-                padded_weights = self._pad_dilation_in_weight(self.dilation[0], self.kernel_size[0], pad_dim)
+                padded_weights = self._pad_dilation_in_weight(self.dilation[pad_dim],
+                                                              self.kernel_size[pad_dim], pad_dim)
                 self.weight.data = padded_weights
-            self.dilation = (1, 1)
             self.kernel_size = (self.kernel_size[0] * self.dilation[0] - (self.dilation[0] - 1),
                                 self.kernel_size[1] * self.dilation[1] - (self.dilation[1] - 1))
+            self.dilation = (1, 1)
 
     def forward(self, input: torch.Tensor) -> torch.Tensor:
         """The forward function of integer conv2d layer.
@@ -294,21 +295,22 @@ class MATCHConv2d(nn.Conv2d, MATCHModule):
         :param kernel_size: the kernel size
         :type kernel_size: int
         """
+        in_channels = self.weight.shape[1]  # in_channels // groups
         if pad_dim == 0:
-            padded_weights = torch.zeros(self.out_channels, self.in_channels,
+            padded_weights = torch.zeros(self.out_channels, in_channels,
                                          kernel_size * dilation - (dilation - 1),
                                          1,
                                          device=self.device)
         else:
-            padded_weights = torch.zeros(self.out_channels, self.in_channels,
+            padded_weights = torch.zeros(self.out_channels, in_channels,
                                          1,
                                          kernel_size * dilation - (dilation - 1),
                                          device=self.device)
         for c_out in range(self.out_channels):
-            for c_in in range(self.in_channels):
+            for c_in in range(in_channels):
                 for i in range(kernel_size):
                     if pad_dim == 0:
                         padded_weights[c_out, c_in, i * dilation] = self.weight[c_out, c_in, i]
                     else:
-                        padded_weights[c_out, c_in, 0, i * dilation] = self.weight[c_out, c_in, i]
+                        padded_weights[c_out, c_in, 0, i * dilation] = self.weight[c_out, c_in, 0, i]
         return padded_weights
